@@ -164,3 +164,20 @@ Definition alpha (S : list cenv) : aenv :=
   fun x => if any_touched S x
            then Some (mkA (tri_of (map (fun c => c_is_assigned c x) S)) (tri_of (map (fun c => c_is_read c x) S)))
            else None.
+
+(* ------------------------------------------------------------------ loops (proof/C09_While.v)
+   visit_While analyses   while c: B   as   c; ( B; c | nothing ):  in this syntax  If l rs (B ++ [Expr l rs]) [].
+   A real execution runs the body any number of times: unroll. *)
+Fixpoint bapp (a b : block) : block :=
+  match a with BNil => b | BCons s r => BCons s (bapp r b) end.
+Definition bsingle (s : stmt) : block := BCons s BNil.
+
+(* the loop run at most k more times / analysed once *)
+Fixpoint unroll (l : line) (rs : list var) (body : block) (k : nat) : stmt :=
+  match k with
+  | 0 => Expr l rs
+  | S k' => If l rs (bapp body (bsingle (unroll l rs body k'))) BNil
+  end.
+Definition once (l : line) (rs : list var) (body1 : block) : stmt :=
+  If l rs (bapp body1 (bsingle (Expr l rs))) BNil.
+
